@@ -33,6 +33,9 @@ def kinds(t):
         if last_seg(n) == "len":
             ks.add("position")
     for s in subterms(t):
+        # payload of the owned location FunctionLocation::Instruction(block_index, instruction_index)
+        if s and s[0] == "field" and s[2] == ".1" and s[1][0] == "variant" and s[1][2] == "Instruction":
+            ks.add("index")
         if s and s[0] == "bin" and s[1] in ("Add", "Sub", "AddWithOverflow", "SubWithOverflow"):
             if any(c[1] in INDEX_SRC or last_seg(c[1]) == "instruction_index" for c in calls_in(s)):
                 ks.add("index-arith")
